@@ -84,6 +84,7 @@ def rule_R1(ctx, f, b):
     ctx.rule(rid, "separators: every Hasher::write of a variable-length component in Desc::new is followed on every path, before the next write/finish on that "
                   "hasher, by write_u8(SEPARATOR_BYTE), and the separator byte cannot occur in UTF-8")
     n = hc.rule_separators(ctx, f, b, rid, "Desc::new")
+    hc.rule_hasher_init(ctx, f, b, rid, "Desc::new")
     ctx.floor(rid, "Hasher::write sites in Desc::new", n, 3)
     c = f.consts.get("prometheus::metrics::SEPARATOR_BYTE")
     ctx.ob(rid, "SEPARATOR_BYTE", c is not None and int(c.get("bits", -1)) in hc.NON_UTF8, "SEPARATOR_BYTE must be a byte that cannot occur in UTF-8 (found %s)" % (c or {}).get("bits"))
